@@ -2,7 +2,7 @@
 # Must-fail corpus: every patch under selftest/<ID>/*.diff is applied to a scratch
 # worktree of /repo (HEAD + the uncommitted contract mirror), the property's check
 # is run against it, and it must report a VIOLATION naming an obligation that
-# matches the patch's "# expect:" line. Usage: selftest/run.sh [ID ...]
+# matches the patch's "# expect:" line. Usage: [SELFTEST_GLOB='seeded_*'] selftest/run.sh [ID ...]
 set -u
 cd "$(dirname "$0")/.."
 export GOFLAGS=-mod=mod GOPROXY=off
@@ -16,7 +16,7 @@ git -C /repo worktree add --detach "$WT" HEAD >/dev/null 2>&1 || { echo "cannot 
 fail=0; total=0
 ids=("$@"); [ ${#ids[@]} -eq 0 ] && ids=($(ls selftest | grep -E '^C[0-9]+$'))
 for id in "${ids[@]}"; do
-  for p in selftest/$id/*.diff; do
+  for p in selftest/$id/${SELFTEST_GLOB:-*}.diff; do
     [ -e "$p" ] || continue
     total=$((total+1))
     expect=$(grep -m1 '^# expect:' "$p" | sed 's/^# expect: *//')
